@@ -22,8 +22,11 @@ var supportedIgnoreTypes = map[string]bool{
 }
 
 type ignore struct {
-	ignoreNextLine ignoredRules
-	ignoreThisLine ignoredRules
+	// falco-ignore-next-line and falco-ignore belong to the statement which carries them.
+	// Statements are nested so the directives are kept as stacks: the directive of an inner
+	// statement must neither cancel nor narrow the directive of an enclosing statement.
+	ignoreNextLine []ignoredRules
+	ignoreThisLine []ignoredRules
 	ignoreRange    ignoredRules
 }
 
@@ -32,18 +35,19 @@ type ignoredRules struct {
 	rules map[Rule]bool
 }
 
+func (r *ignoredRules) isIgnored(rule Rule) bool {
+	return r.all || r.rules[rule]
+}
+
 func ignoreRules(ignoredRules *ignoredRules, rules []Rule) {
-	ignoreAllRules := len(rules) == 0
-
-	if ignoreAllRules {
-		ignoredRules.all = true
-		ignoredRules.rules = make(map[Rule]bool)
-		return
-	}
-
-	ignoredRules.all = false
 	if ignoredRules.rules == nil {
 		ignoredRules.rules = make(map[Rule]bool)
+	}
+	// Without rules all rules are ignored.
+	// Rules which are listed by another directive are added, they do not narrow it.
+	if len(rules) == 0 {
+		ignoredRules.all = true
+		return
 	}
 	for _, r := range rules {
 		ignoredRules.rules[r] = true
@@ -65,9 +69,25 @@ func unignoreRules(ignoredRules *ignoredRules, rules []Rule) {
 	}
 }
 
+// collectIgnore gathers the rules of all directives of the ignoreType in the comments.
+// The second return value is false when the comments have no such directive.
+func collectIgnore(comments ast.Comments, ignoreType string) (ignoredRules, bool) {
+	var collected ignoredRules
+	var found bool
+	for _, c := range comments {
+		if t, rules := parseIgnoreComment(c.String()); t == ignoreType {
+			ignoreRules(&collected, rules)
+			found = true
+		}
+	}
+	return collected, found
+}
+
 func parseIgnoreComment(comment string) (string, []Rule) {
 	// the comment of a CRLF terminated line ends with a carriage return
-	body := strings.TrimSpace(strings.TrimLeft(comment, "#@*/ "))
+	// and a block comment is closed by "*/"
+	body := strings.TrimSpace(strings.TrimSuffix(strings.TrimSpace(comment), "*/"))
+	body = strings.TrimSpace(strings.TrimLeft(body, "#@*/ "))
 	ignoreType, body, _ := strings.Cut(body, " ")
 
 	if supported, ok := supportedIgnoreTypes[ignoreType]; !ok || !supported {
@@ -95,40 +115,36 @@ func parseIgnoreComment(comment string) (string, []Rule) {
 // trailing comments accept falco-ignore
 func (i *ignore) SetupStatement(meta *ast.Meta) {
 	// Find ignore signature in leading comments
-	for _, c := range meta.Leading {
+	i.setupRange(meta.Leading)
+	if rules, ok := collectIgnore(meta.Leading, falcoIgnoreNextLine); ok {
+		i.ignoreNextLine = append(i.ignoreNextLine, rules)
+	}
+
+	// Find ignore signature in trailing comments
+	if rules, ok := collectIgnore(meta.Trailing, falcoIgnoreThisLine); ok {
+		i.ignoreThisLine = append(i.ignoreThisLine, rules)
+	}
+}
+
+// falco-ignore-start and falco-ignore-end switch the range in the order of the comments
+func (i *ignore) setupRange(comments ast.Comments) {
+	for _, c := range comments {
 		switch ignoreType, rules := parseIgnoreComment(c.String()); ignoreType {
-		case falcoIgnoreNextLine:
-			ignoreRules(&i.ignoreNextLine, rules)
 		case falcoIgnoreStart:
 			ignoreRules(&i.ignoreRange, rules)
 		case falcoIgnoreEnd:
 			unignoreRules(&i.ignoreRange, rules)
 		}
 	}
-
-	// Find ignore signature in trailing comments
-	for _, c := range meta.Trailing {
-		ignoreType, rules := parseIgnoreComment(c.String())
-		if ignoreType == falcoIgnoreThisLine {
-			ignoreRules(&i.ignoreThisLine, rules)
-		}
-	}
 }
 
 // Clean up common statements, declarations
 func (i *ignore) TeardownStatement(meta *ast.Meta) {
-	for _, c := range meta.Leading {
-		ignoreType, rules := parseIgnoreComment(c.String())
-		if ignoreType == falcoIgnoreNextLine {
-			unignoreRules(&i.ignoreNextLine, rules)
-		}
+	if _, ok := collectIgnore(meta.Leading, falcoIgnoreNextLine); ok && len(i.ignoreNextLine) > 0 {
+		i.ignoreNextLine = i.ignoreNextLine[:len(i.ignoreNextLine)-1]
 	}
-
-	for _, c := range meta.Trailing {
-		ignoreType, rules := parseIgnoreComment(c.String())
-		if ignoreType == falcoIgnoreThisLine {
-			unignoreRules(&i.ignoreThisLine, rules)
-		}
+	if _, ok := collectIgnore(meta.Trailing, falcoIgnoreThisLine); ok && len(i.ignoreThisLine) > 0 {
+		i.ignoreThisLine = i.ignoreThisLine[:len(i.ignoreThisLine)-1]
 	}
 }
 
@@ -144,40 +160,36 @@ func (i *ignore) TeardownStatement(meta *ast.Meta) {
 //
 // So we need to divide parsing leading and trailing comment by setup and teardown
 func (i *ignore) SetupBlockStatement(meta *ast.Meta) {
-	for _, c := range meta.Leading {
-		switch ignoreType, rules := parseIgnoreComment(c.String()); ignoreType {
-		case falcoIgnoreNextLine:
-			ignoreRules(&i.ignoreNextLine, rules)
-		case falcoIgnoreStart:
-			ignoreRules(&i.ignoreRange, rules)
-		case falcoIgnoreEnd:
-			unignoreRules(&i.ignoreRange, rules)
-		}
+	i.setupRange(meta.Leading)
+	if rules, ok := collectIgnore(meta.Leading, falcoIgnoreNextLine); ok {
+		i.ignoreNextLine = append(i.ignoreNextLine, rules)
 	}
 }
 func (i *ignore) TeardownBlockStatement(meta *ast.Meta) {
-	for _, c := range meta.Leading {
-		ignoreType, rules := parseIgnoreComment(c.String())
-		if ignoreType == falcoIgnoreNextLine {
-			unignoreRules(&i.ignoreNextLine, rules)
-		}
+	if _, ok := collectIgnore(meta.Leading, falcoIgnoreNextLine); ok && len(i.ignoreNextLine) > 0 {
+		i.ignoreNextLine = i.ignoreNextLine[:len(i.ignoreNextLine)-1]
 	}
 
+	// The comments in front of the closing brace are the infix comments of the block
+	i.setupRange(meta.Infix)
+
 	for _, c := range meta.Trailing {
-		switch ignoreType, rules := parseIgnoreComment(c.String()); ignoreType {
-		case falcoIgnoreThisLine:
-			unignoreRules(&i.ignoreThisLine, rules)
-		case falcoIgnoreEnd:
+		if ignoreType, rules := parseIgnoreComment(c.String()); ignoreType == falcoIgnoreEnd {
 			unignoreRules(&i.ignoreRange, rules)
 		}
 	}
 }
 
 func (i *ignore) IsEnable(rule Rule) bool {
-	return i.ignoreNextLine.all ||
-		i.ignoreThisLine.all ||
-		i.ignoreRange.all ||
-		i.ignoreNextLine.rules[rule] ||
-		i.ignoreThisLine.rules[rule] ||
-		i.ignoreRange.rules[rule]
+	for idx := range i.ignoreNextLine {
+		if i.ignoreNextLine[idx].isIgnored(rule) {
+			return true
+		}
+	}
+	for idx := range i.ignoreThisLine {
+		if i.ignoreThisLine[idx].isIgnored(rule) {
+			return true
+		}
+	}
+	return i.ignoreRange.isIgnored(rule)
 }
